@@ -138,7 +138,7 @@ Qed.
 (* Drop: same, unless start_dtls still holds a strong reference (then the teardown is deferred) *)
 Lemma drop_CL s : Inv s -> task s <> TStarting -> CL (step s Drop).
 Proof.
-  intros HI Ht. cbn [step]. destruct (task_eqb (task s) TStarting) eqn:E.
+  intros HI Ht. cbn [step]. unfold drop_deferred; cbn. destruct (task_eqb (task s) TStarting) eqn:E.
   - apply task_eqb_eq in E; contradiction.
   - destruct HI as (Hc & _). destruct (already_closed s) eqn:E2.
     + assert (HCs : CL s). { apply Hc. rewrite already_closed_spec in E2. apply sig_eqb_eq; auto. }
@@ -156,7 +156,7 @@ Proof.
   pose proof (drop_CL s HI Ht) as HC. fold s' in HC. split; [|split].
   - cl_open HC. unfold closed_core; eauto.
   - apply CL_core_run; auto.
-  - subst s'. cbn [step]. destruct (task_eqb (task s) TStarting) eqn:E.
+  - subst s'. cbn [step]. unfold drop_deferred; cbn. destruct (task_eqb (task s) TStarting) eqn:E.
     + apply task_eqb_eq in E; contradiction.
     + reflexivity.
 Qed.
